@@ -21,6 +21,7 @@ import Ymq.Lemmas.PolySizesWalk
 import Ymq.Lemmas.PolyWalkTotal
 import Ymq.Lemmas.PolySelectNever
 import Ymq.Lemmas.PolyMpqs
+import Ymq.Lemmas.PolyMpqsTotal
 import Ymq.Lemmas.PolyQs
 
 namespace Ymq.C12
@@ -688,6 +689,24 @@ theorem mpqs_identity (n d r : Nat) (pol : MpqsPoly.Poly) (h : makePoly n d r = 
 
 open Ymq.MpqsPoly in
 example : (makePoly 1000003000009 211 58).isSome = true := by decide +kernel
+
+open Ymq.MpqsPoly Ymq.PolyMpqs in
+/-- `make_poly_total`: `make_poly(n, D, r)` returns — none of `assert!(d.bits() < 128)`, `assert!(b.bits() < 256)`,
+`assert!(c.abs().bits() < 256)`, the three `debug_assert`s, the two `inv_mod(..).unwrap()`, the subtraction
+`n - h1*h1`, `d*d - b` — can fail whenever: `D` odd, `1 < D < 2^127` (`mpqs` asserts `d_target.bits() < 127`),
+`r < D`, `r² ≡ n (mod D)`, `gcd(2r, D) = gcd(D, n) = 1` (what `sieve_for_polys` checks before it emits `(D, r)`;
+`D` need not be prime), `r² ≤ n` (implied by `D² ≤ n`), and `n < 2^254·D²` (for `n < 2^448`, the guard of `mpqs`,
+this holds as soon as `D ≥ 2^97`, far below the values `≈ (2n)^(1/4)/√(M/2)` the driver uses; it also holds for
+every `n < 2^254`). Outside (`r² > n`, corpus seeds `!chk mpqs_poly 55019 …`) the subtraction underflows. -/
+theorem make_poly_total (n d r : Nat) (hd1 : 1 < d) (hdodd : d % 2 = 1) (hd : d < 2 ^ 127) (hr : r < d)
+    (hsq : r * r % d = n % d) (hle : r * r ≤ n) (hg1 : Nat.gcd (2 * r) d = 1) (hg2 : Nat.gcd d n = 1)
+    (hn1 : 1 < n) (hnd : n < 2 ^ 254 * (d * d)) : ∃ pol, makePoly n d r = some pol :=
+  makePoly_isSome hd1 hdodd hd hr hsq hle hg1 hg2 hn1 hnd
+
+set_option exponentiation.threshold 1100 in
+example : (1 : Nat) < 211 ∧ 211 % 2 = 1 ∧ 211 < 2 ^ 127 ∧ 58 < 211 ∧ 58 * 58 % 211 = 1000003000009 % 211 ∧
+    58 * 58 ≤ 1000003000009 ∧ Nat.gcd (2 * 58) 211 = 1 ∧ Nat.gcd 211 1000003000009 = 1 ∧
+    1000003000009 < 2 ^ 254 * (211 * 211) := by decide
 
 open Ymq.MpqsPoly Ymq.PolyMpqs in
 /-- `prepare_prime_exact`: all three branches of `Poly::prepare_prime`, for a polynomial returned by
